@@ -210,7 +210,7 @@ theorem fieldByName_render (name : Bytes) (x : Doc) (hg : Good x) :
     rw [findMapKey_spec name ks (renderList vs) vs rfl hl (hu name)]
     cases hs : specGet name ks vs with
     | none => rfl
-    | some v => simp [todec_render v (hgs v (specGet_mem name ks vs v hs))]
+    | some v => simp [conv_render]
 
 theorem filterMap_render (name : Bytes) : ∀ (xs : List Doc), (∀ x ∈ xs, Good x) →
     ((renderList xs).map RV.iface).filterMap (fieldByName name) = renderList (xs.filterMap (projGet name)) := by
